@@ -64,8 +64,8 @@ Definition consumed (c : wire_run_fx -> bool) (fx : list wire_run_fx) (v : Q) : 
 Definition is_uniform (e : wire_run_fx) : bool := match e with FxUniform => true | _ => false end.
 Definition is_delay (e : wire_run_fx) : bool := match e with FxDelayDist => true | _ => false end.
 
-(* the generated functions on the abstract state: self.loss_rate = loss, env.now = wnow, packet.current_time = the instant
-   the packet was filed in the store under (Wire.put stamps it: C10_gen_wire_put), self.out set (assumption of C10) *)
+(* the generated functions on the abstract state: self.loss_rate = loss, env.now = wnow, entry[0] (the stamp of the store entry) = the instant
+   the packet was filed in the store under (Wire.put files it so: C10_gen_wire_put), self.out set (assumption of C10) *)
 Definition wire_gen_init (loss : option Q) (w : wire) (ct : Q) (dbg out_set : bool) (u dd : Q) :=
   gen_Wire_run_from_0 loss (wnow w) ct dbg out_set u dd.
 Definition wire_gen_get (loss : option Q) (w : wire) (ct : Q) (dbg : bool) (u dd : Q) :=
@@ -149,7 +149,7 @@ Qed.
 (* ---- the effects and the next request, explicitly ---------------------------------------------------------------
    program order: the loss draw (iff loss_rate is truthy) BEFORE the delay draw (iff the packet is kept: draw >= rate)
    BEFORE out.put (iff the packet already waited its delay in the store); otherwise a timeout of exactly
-   delay - (now - current_time) *)
+   delay - (now - entry instant) *)
 Lemma wire_run_get_explicit : forall (loss : option Q) (w : wire) (a0 : Q) (dbg : bool) (u dd : Q),
   wire_gen_get loss w a0 dbg u dd =
     match loss_on loss with
